@@ -160,9 +160,10 @@ def build(read):
     f, k1 = re.subn(r"\b(\w+)\.is_ascii_digit\(\)", r"char_is_ascii_digit(\1)", f)
     f, k2 = re.subn(r"\b(\w+)\.is_numeric\(\)", r"char_is_numeric(\1)", f)
     f, k3 = re.subn(r"(self\.scanner\.range\([^()]*\))\.to_string\(\)", r"str_to_string(\1)", f)
-    f, k4 = re.subn(r"\b(\w+)\.replace\('_', \"\"\)\.parse\(\)", r"parse_i64(&string_remove_char(&\1, '_'))", f)
-    if k3 != 1 or k4 != 1:
-        raise Undecided(f"next_int: range(..).to_string() found {k3}x, replace('_', \"\").parse() found {k4}x (expected 1 each)")
+    f, k4a = re.subn(r"\b(\w+)\.replace\('_', \"\"\)", r"string_remove_char(&\1, '_')", f)
+    f, k4 = re.subn(r"(string_remove_char\([^()]*\)|\b\w+)\.parse\(\)", r"parse_i64(&\1)", f)
+    if k3 != 1 or k4 != 1 or k4a != 1:
+        raise Undecided(f"next_int: range(..).to_string() found {k3}x, replace('_', \"\") found {k4a}x, .parse() found {k4}x (expected 1 each)")
     b.edits.append(f"D5: next_int: {k1}x `c.is_ascii_digit()` -> char_is_ascii_digit(c), {k2}x `c.is_numeric()` -> char_is_numeric(c), `range(..).to_string()` -> "
                    "str_to_string(..), `raw.replace('_', \"\").parse()` -> parse_i64(&string_remove_char(&raw, '_')) (assumed std contracts)")
     # panic!( .. ) -> internal_panic()
